@@ -167,7 +167,7 @@ def build(engine, cfg, kind, flavour, std="c++17", extra_defs=()):
     """Returns the path of the binary for (engine, cfg, kind, flavour); builds it if the cache has no current one."""
     src = os.path.join(ROOT, "harness", "engines", engine + ".cpp")
     cxx, flags = FLAVOURS[flavour]
-    header = "#include \"vf/config.hpp\"\n"
+    header = "".join("#define %s\n" % d for d in extra_defs) + "#include \"vf/config.hpp\"\n"
     if cfg and ";" in cfg:
         # several parameter lists in one binary (layout engine)
         lst = cfg.split(";")
@@ -178,8 +178,6 @@ def build(engine, cfg, kind, flavour, std="c++17", extra_defs=()):
             header += "#define VF_ARM_NEW 1\n"
     if kind:
         header += "using VF_KIND = %s;\n#define VF_KIND_STR \"%s\"\n" % (kind_cpp(kind), kind)
-    for d in extra_defs:
-        header += "#define %s\n" % d
     cmd_tail = [cxx, "-std=" + std] + flags + COMMON
     key = hashlib.sha256((tree_hash() + _hash_files([src]) + header + " ".join(cmd_tail)).encode()).hexdigest()[:20]
     name = "%s-%s-%s-%s" % (engine, sanitize(cfg or "nocfg")[:60], kind or "nokind", std.replace("+", "p"))
@@ -275,7 +273,9 @@ def parse_tsan(unit, se, case):
         if not m:
             continue
         frames = re.findall(r"#\d+ (?:0x[0-9a-f]+ in )?([^\n]+)", rep)
-        cn = [f for f in frames if "cntgs::" in f or "/src/cntgs/" in f]
+        # a frame belongs to the library if the function itself lives in namespace cntgs or its source line is under src/cntgs
+        # (harness templates instantiated with cntgs types do not count)
+        cn = [f for f in frames if re.match(r"(?:[\w:~ ]*\s)?cntgs::", re.split(r"[<(]", f, 1)[0]) or "/src/cntgs/" in f]
         top = re.sub(r"<.*", "", cn[0]) if cn else (frames[0] if frames else "")
         unit.events.append({"t": "viol", "case": case, "step": 0, "props": "C19" if cn else "HARNESS", "kind": "tsan:" + m.group(1).strip().replace(" ", "-"),
                             "op": "concurrent_const_use", "pre": "shared", "x": "", "frame": top[:200], "detail": rep.strip()[:3000], "unit": unit.label})
@@ -376,10 +376,13 @@ def run_batch(unit, lo, hi, timeout=150):
             cur = case
             continue
         kind = classify_stderr(se)
+        dprops = (death or {}).get("props", "")
+        if kind and kind.startswith("assert:") and "is_aligned" in kind and "C03" not in dprops:
+            dprops = (dprops + ",C03").strip(",")  # the library's own alignment assertion is C03's monitor too
         ev = {"t": "death", "case": case, "unit": unit.label, "signal": sig or ("timeout" if hang else "rc=%s" % p.returncode),
               "kind": "hang" if hang else (kind or ("raw:" + (sig or str(p.returncode)))),
               "op": (death or {}).get("op", ""), "pre": (death or {}).get("pre", ""), "step": (death or {}).get("step", -1),
-              "props": (death or {}).get("props", ""), "frame": innermost_cntgs_frame(se), "x": (death or {}).get("x", ""),
+              "props": dprops, "frame": innermost_cntgs_frame(se), "x": (death or {}).get("x", ""),
               "stderr": se[-6000:]}
         unit.events.append(ev)
         unit.case_ends.append({"t": "case_end", "case": case, "died": True, "nt": {}, "hash": "dead%d" % case, "steps": 0})
@@ -485,7 +488,7 @@ def conclude(prop, tier, level, units, build_errors, rule, t0, extra_cov=None, m
         else:
             unlisted.append((u, ev))
     cases = sum(len(u.case_ends) for u in units)
-    died_other = sum(1 for u, ev in cross)
+    died_other = sum(1 for u, ev in cross if not ev.get("soft"))  # soft observations of other properties do not cut cases
     hashes = set()
     nontrivial = set()
     samples = []
